@@ -360,6 +360,8 @@ def run(repo: Repo, tier: str) -> Report:
         rep.ob("R-WHOCALLS", FILE, name, f"iteragg.{name} reduces with {f} and forwards n, dim, begin, end, method", ok,
                f"call = {ast.unparse(call) if call is not None else None}", call if call is not None else name)
 
+    from ..rules import r_stateless
+    r_stateless(rep, repo, [('IterativeAggregation', '_iteragg'), ('IterativeAggregation', 'sum'), ('IterativeAggregation', 'mean'), ('IterativeAggregation', 'full')])
     rep.floor("C19 obligations", len(rep.obls), 20)
     return rep
 
